@@ -477,3 +477,62 @@ _targets_before_observers = targets
 def targets():      # noqa: F811
     from . import purity
     return _targets_before_observers() + [purity.target_observers(["data/data_set"], "DataSet observers keep no state")]
+
+
+def target_derived_views():
+    """the derived views get_magnitudes / get_phases / get_num_points / get_nyquist_data / get_bode_data: every part of what they
+    return is computed from get_frequencies(masked=m) / get_impedances(masked=m) with the SAME m that was asked for -- so frequency,
+    modulus and phase of one row belong to one physical point, for the masked, unmasked and full view alike"""
+    from pyvc import overload as O
+    from . import dataflow as DF
+    from .dataflow import T, opaque
+
+    def run(sess: Session):
+        for m in (False, True, None):
+            calls = []
+
+            class Me:
+                def get_frequencies(self, masked=False):
+                    calls.append(("f", masked))
+                    return T.var(f"f[{masked}]")
+
+                def get_impedances(self, masked=False):
+                    calls.append(("Z", masked))
+                    return T.var(f"Z[{masked}]")
+
+                def get_magnitudes(self, masked=False):
+                    calls.append(("mag", masked))
+                    return T(DF.fn("abs", 1)(DF.tv(T.var(f"Z[{masked}]"))))
+
+                def get_phases(self, masked=False):
+                    calls.append(("phase", masked))
+                    return opaque("angle")(T.var(f"Z[{masked}]"), deg=True)
+            ns = {"abs": lambda x: abs(x), "angle": opaque("angle"), "len": lambda x: ("len", x)}
+            O.load(MOD, ["DataSet.get_magnitudes", "DataSet.get_phases", "DataSet.get_num_points", "DataSet.get_nyquist_data", "DataSet.get_bode_data"], ns)
+            Zm, fm = T.var(f"Z[{m}]"), T.var(f"f[{m}]")
+            tag = f"[masked={m}]"
+            calls.clear()
+            DF.eq_check(sess, f"get_magnitudes == |get_impedances(masked)|{tag}", ns["get_magnitudes"](Me(), masked=m), abs(Zm))
+            DF.eq_check(sess, f"get_phases == angle(get_impedances(masked), deg=True){tag}", ns["get_phases"](Me(), masked=m), opaque("angle")(Zm, deg=True))
+            n = ns["get_num_points"](Me(), masked=m)
+            sess.check("post", [], z3.BoolVal(isinstance(n, tuple) and n[0] == "len" and n[1].e.eq(Zm.e)), 0, label=f"get_num_points == len(get_impedances(masked)){tag}")
+            sess.check("post", [], z3.BoolVal(all(c[1] is m for c in calls) and len(calls) == 3), 0, label=f"the simple views ask for the requested subset only{tag}")
+            calls.clear()
+            re_, nim = ns["get_nyquist_data"](Me(), masked=m)
+            DF.eq_check(sess, f"get_nyquist_data[0] == Re Z of the requested subset{tag}", re_, Zm.real)
+            DF.eq_check(sess, f"get_nyquist_data[1] == -Im Z of the requested subset{tag}", nim, -Zm.imag)
+            sess.check("post", [], z3.BoolVal(all(c[1] is m for c in calls) and calls), 0, label=f"get_nyquist_data asks for the requested subset only{tag}")
+            calls.clear()
+            f_, mag, nph = ns["get_bode_data"](Me(), masked=m)
+            DF.eq_check(sess, f"get_bode_data[0] == frequencies of the requested subset{tag}", f_, fm)
+            DF.eq_check(sess, f"get_bode_data[1] == |Z| of the requested subset{tag}", mag, abs(Zm))
+            DF.eq_check(sess, f"get_bode_data[2] == -phase (degrees) of the requested subset{tag}", nph, -opaque("angle")(Zm, deg=True))
+            sess.check("post", [], z3.BoolVal(all(c[1] is m for c in calls) and calls), 0, label=f"get_bode_data asks for the requested subset only (all three parts){tag}")
+    return (f"{MOD}:DataSet.get_bode_data / get_nyquist_data / get_magnitudes / get_phases", MOD, "DataSet.get_bode_data", run)
+
+
+_targets_c05_with_observers = targets
+
+
+def targets():      # noqa: F811
+    return _targets_c05_with_observers() + [target_derived_views()]
